@@ -114,6 +114,7 @@ def defects_for(fmt):
               ("tanb=0", "input", lambda t: set_entry(t, "GM2CalcInput", "3", "0"), False),
               ("msq(1,1)^2<0", "input", lambda t: set_entry(t, "GM2CalcInput", "15", "-100"), False),
               ("mse(1,1)^2<0", "input", lambda t: set_entry(t, "GM2CalcInput", "12", "-30"), False),
+              ("sneutrino-tachyon(D-term-only)", "tachyon", lambda t: set_entry(t, "GM2CalcInput", "10", "25"), False),   # 0 < msl(2,2)^2 < MZ^2 |cos 2beta| / 2: no negative soft mass
               ("smuon-tachyon", "tachyon", lambda t: set_entry(t, "GM2CalcInput", "13", "-900"), False),
               ("stau-tachyon", "tachyon", lambda t: set_entry(t, "GM2CalcInput", "14", "-900"), False),
               ("stop-tachyon", "tachyon", lambda t: set_entry(t, "GM2CalcInput", "20", "-3000"), False),
